@@ -36,6 +36,7 @@ func runC05(p *Prog, r *Report) {
 	fieldPathRule(p, r, "C05.R10")
 	ignoreEveryFieldRule(p, r, "C05.R11")
 	typeStringOpaqueRule(p, r, "C05.R12")
+	fieldSettingTargetRule(p, r, "C05.R13")
 	armStoresRule(p, r, "C05.R7", "config.parseMethodLine", "map", "ignore", "autoMap")
 }
 
